@@ -1,11 +1,24 @@
-(* C12 — strongly connected components are computed exactly (graph.py compute_SCCs). *)
-From PMC Require Import Spec.Lemmas.
-(* placeholder until Proofs/SccP.v is assembled: non-vacuity of the statement *)
-Example C12_wf_example : wf_graph [(0, [1]); (1, [0; 2]); (2, [])].
-Proof.
-  repeat split.
-  - repeat constructor; simpl; intuition congruence.
-  - intros x. destruct x as [|[|[|x]]]; simpl; repeat constructor; simpl; intuition congruence.
-  - unfold edge in H. destruct x as [|[|[|x]]]; simpl in *; intuition.
-  - unfold edge in H. destruct x as [|[|[|x]]]; simpl in *; intuition; subst; simpl; auto.
-Qed.
+(* C12 — strongly connected components are computed exactly (graph.py compute_SCCs).
+   Theorem only; the proof (invariant of the Nuutila/Tarjan DFS, by induction on fuel with
+   an inner induction over successor lists) is in Proofs/SccP.v. *)
+From PMC Require Import Spec.Lemmas Proofs.SccP.
+From PMC Require Proofs.GraphP.
+
+(* for EVERY well-formed digraph: the yielded lists are pairwise disjoint, cover exactly the
+   nodes, and two nodes share a list exactly when each is reachable from the other *)
+Theorem C12_exact : forall g, wf_graph g ->
+  NoDup (concat (compute_SCCs g)) /\
+  (forall x, In x (nodes g) <-> In x (concat (compute_SCCs g))) /\
+  (forall c x, In c (compute_SCCs g) -> In x c -> forall y, In y c <-> mutual g x y).
+Proof. exact scc_correct. Qed.
+Print Assumptions C12_exact.
+
+(* every DiGraph(V, E) is such a graph *)
+Theorem C12_on_constructed_graphs : forall V E, scc_spec (mk_graph V E) (compute_SCCs (mk_graph V E)).
+Proof. intros V E. apply scc_correct. apply PMC.Proofs.GraphP.mk_graph_spec. Qed.
+Print Assumptions C12_on_constructed_graphs.
+
+(* non-vacuity: a graph with a 2-cycle, a self loop and a trivial component *)
+Example C12_example :
+  compute_SCCs (mk_graph [0; 1; 2; 3] [(0, 1); (1, 0); (1, 2); (2, 2); (2, 3)]) = [[3]; [2]; [0; 1]].
+Proof. vm_compute. reflexivity. Qed.
